@@ -5,7 +5,7 @@ open Uhppote
 
 def facts : Driver.Net.Facts :=
   ⟨Gen.Driver.BroadcastTo, Gen.Driver.SendUDP, Gen.Driver.SendTCP, Gen.Driver.Broadcast,
-   Gen.Driver.broadcastShared.all (·.2)⟩
+   Gen.Driver.broadcastShared.all (·.2), Gen.Driver.tcpSingleDeadline⟩
 
 def handle (ts : List String) : Option String := Driver.Net.eval facts ts
 
